@@ -1513,6 +1513,19 @@ def R4(ctx, rule="R4"):
             p = callee_path(t)
             if True:
                 n += 1
+                # `first.add_edge(..).and_then(|_| second.add_edge(..))`: the second insertion happens whenever the first succeeded
+                # (the same error path as `?`): it stands where the and_then is called
+                wbody = body
+                for _hop in range(3):
+                    if body.kind != "closure" or cond_guards(body, bb):
+                        break
+                    uses_ = fl.closure_uses(body)
+                    if len(uses_) != 1 or not (callee_path(uses_[0][2]) or "").endswith("Result::<T, E>::and_then"):
+                        break
+                    recv_ = strip_refs(expr_operand(uses_[0][0], uses_[0][2]["args"][0]))
+                    if not (recv_.kind == "call" and recv_[1] == ADD_EDGE):
+                        break
+                    body, bb = uses_[0][0], uses_[0][1]
                 where = m.where(body, bb)
                 # in a closure consumed by (try_)for_each over raw_edges()/raw_nodes() with no filters
                 x = body
@@ -1609,13 +1622,13 @@ def R4(ctx, rule="R4"):
                           "structure copy: %s executed for every raw %s, unconditionally" % (p.split("::")[-1], "edge" if "edge" in p else "node"),
                           "structure copy is conditional / partial: %s %s" % (why, gs))
                 if p == ADD_EDGE:
-                    w = strip_refs(expr_operand(body, wop)) if wop is not None else E(("unknown", "weight not passed through"))
-                    wsrc = sources_of_expr(ctx, body, w)
+                    w = strip_refs(expr_operand(wbody, wop)) if wop is not None else E(("unknown", "weight not passed through"))
+                    wsrc = sources_of_expr(ctx, wbody, w)
                     ctx.check(all(s.kind in ("alloc", "closure_param", "param") for s in wsrc) and
                               any("raw_edges" in str(s) for s in wsrc) or w.kind == "field" or
                               (bool(wsrc) and all(s.kind == "param" and "edge::Edge" in ctx.fb.bodies[s[1]].locals[s[2]]["s"] for s in wsrc)),
                               rule, "weight|%s" % key, where,
-                              "the copied edge keeps the weight of the raw edge", "copied edge weight is %s" % fmt_expr(w, body))
+                              "the copied edge keeps the weight of the raw edge", "copied edge weight is %s" % fmt_expr(w, wbody))
     ctx.check(n >= 4, rule, "count", m.where(b), "2 add_node + 2 add_edge structure copies found", "expected 4 structure-copy calls, found %d" % n)
     # every structure that receives edges receives the nodes too (and the other way round): nodes inserted twice into one copy
     # and never into the other leave a copy whose edge insertions index past its nodes
@@ -2154,6 +2167,12 @@ def D2(ctx, rule="D2"):
     if lr_in is not None and lr_out is not None:
         D2_loops(ctx, rule, cm, lr_in, lr_out)
         return
+    if b.kind == "closure":
+        # mixed form: the outer iteration is a closure passed to a consumer, the inner one a `for` loop in that closure
+        lr_mixed = loop_region(ctx, b, bb)
+        if lr_mixed is not None and loop_region(ctx, b, bb, skip_headers=(lr_mixed["header"],)) is None:
+            D2_mixed(ctx, rule, cm, lr_mixed)
+            return
     # b is the inner closure; its parameter is the inner element, `a` comes from the outer closure's item
     inner_uses = fl.closure_uses(b)
     if len(inner_uses) != 1 or b.parent is None:
@@ -2229,6 +2248,55 @@ def D2(ctx, rule="D2"):
     ctx.check(ok_outer, rule, "direction", where,
               "the Data edge goes from the outer (earlier-sorted) element to an element at a later position of the same sorted list",
               "edge direction / list identity not established: %s" % why)
+
+
+def D2_mixed(ctx, rule, cm, lr_in):
+    """outer iteration = closure given to one consumer (`enumerate().rev().for_each(|(index, a)| ..)`), inner = `for b in list[index..]`
+    in that closure's body"""
+    m, fl = ctx.model, ctx.model.flow
+    b, bb, t, p = cm["site"]
+    where = m.where(b, bb)
+    ichain = iterator_chain(ctx, b, lr_in["iter_expr"])
+    ok_inner, outer_idx, list_inner, why = inner_range_start(ctx, ichain)
+    ctx.check(ok_inner, rule, "inner-range", m.where(b, lr_in["next_bb"]),
+              "the inner loop ranges over list[outer_index..] (later positions only)", why)
+    if not ok_inner:
+        return
+    outer_uses = fl.closure_uses(b)
+    if len(outer_uses) != 1:
+        ctx.unverifiable(rule, "outer", where, "the closure holding the inner loop is not passed to exactly one consumer")
+        return
+    pb, ubb2, ut2, ai2 = outer_uses[0]
+    ochain = iterator_chain(ctx, pb, expr_operand(pb, ut2["args"][0]))
+    names = [c[0] for c in ochain]
+    sel_o = [n_ for n_ in names if n_ in SELECTIVE_ITER]
+    ctx.check(not sel_o, rule, "outer-complete", m.where(pb, ubb2),
+              "the outer iteration visits every element of the sorted list (no skip / take / filter)",
+              "the outer iteration is narrowed by %s: the elements it drops never get their outgoing Data edges" % [n_.split("::")[-1] for n_ in sel_o])
+    if "std::iter::Iterator::enumerate" not in names:
+        ctx.unverifiable(rule, "direction", where, "outer iteration of the mixed closure / loop form has no enumerate: chain %s" % names)
+        return
+    n_rev = names.count("std::iter::Iterator::rev")
+    ctx.check(n_rev % 2 == 1, rule, "outer-descending", m.where(pb, ubb2),
+              "the outer iteration walks the ascending-sorted list from its end (highest rank first): when an element is examined, "
+              "every Data edge among later elements already exists, so has_path_connecting suppresses every implied ordering",
+              "the outer iteration walks the sorted list from the lowest rank upward: the path test runs before the later chain edges exist, "
+              "so Data edges that repeat an implied ordering are added")
+    srcl = sources_of_expr(ctx, pb, ochain[-1][2][2][0]) if ochain[-1][2][2] else frozenset()
+    oi = strip_refs(outer_idx)
+    idx_ok = oi.kind == "field" and oi[1].kind == "arg" and oi[1][1] == 2 and oi[2] == 0
+    ae = strip_refs(cm["a"])
+    a_ok = ae.kind == "field" and ae[1].kind == "arg" and ae[1][1] == 2 and ae[2] == 1
+    b_ok = loop_item_path(cm["b"]) == (lr_in["next_bb"], ())
+    same_list = bool(srcl) and {(s[1], s[2]) for s in srcl if s.kind == "alloc" and not s[3]} == \
+        {(s[1], s[2]) for s in list_inner if s.kind == "alloc" and not s[3]} and \
+        any(s.kind == "alloc" and not s[3] for s in srcl)
+    below = names[names.index("std::iter::Iterator::enumerate") + 1:]
+    pos_ok = not [n_ for n_ in below if n_ == "std::iter::Iterator::rev" or n_ in SELECTIVE_ITER]
+    ctx.check(idx_ok and a_ok and same_list and b_ok and pos_ok, rule, "direction", where,
+              "the Data edge goes from the outer (earlier-sorted) element to an element at a later position of the same sorted list",
+              "edge direction / list identity not established: index from enumerate: %s, `from` is outer element: %s, same list: %s, "
+              "`to` is inner element: %s, enumerate counts list positions: %s" % (idx_ok, a_ok, same_list, b_ok, pos_ok))
 
 
 def D2_coverage(ctx, rule="R6"):
@@ -4248,6 +4316,37 @@ def C16_rules(ctx, rule="E"):
         n += 1
         ctx.check(not bad, rule + "3", "no-edge-mutation|%s" % f["name"], m.where(b),
                   "%s does not mutate edges" % f["name"], "%s mutates the graph through %s" % (f["name"], bad))
+    # E4: a method that borrows the builder (`&mut self`) changes the user's graph only in place, through the Dag's own
+    # insertion methods: it never moves the graph out of the builder or stores another graph into it (`mem::take(&mut self.graph)`
+    # .. `?` .. `self.graph = graph` loses every function and edge when an edge of the batch is rejected)
+    n4 = 0
+    for f in sorted(builder_fns, key=lambda x: x["name"]):
+        b = fb.bodies.get(f["id"])
+        if b is None or not f["inputs"] or not f["inputs"][0]["s"].startswith("&mut"):
+            continue
+        n4 += 1
+        bad = []
+        for bid in sorted(m.reach(b.id)):
+            bx = fb.bodies[bid]
+            for bb, t in bx.calls():
+                p = callee_path(t) or ""
+                if p.split("::<")[0] in ("std::mem::take", "std::mem::replace", "std::mem::swap") and \
+                        any(isinstance(a_, dict) and "daggy::Dag<F," in ((a_.get("pl") or {}).get("ty", "")) for a_ in t["args"]):
+                    bad.append("%s at %s" % (p.split("::<")[0], bx.loc(bb)))
+            for bb, si, st in bx.stmts():
+                if st["k"] != "assign" or not st["pl"]["p"]:
+                    continue
+                # whole-field store through the receiver: `(*self).graph = ..`
+                pr = st["pl"]["p"]
+                if pr and isinstance(pr[-1], dict) and "f" in pr[-1] and "*" in pr[:-1] and \
+                        st["rv"]["k"] == "use" and st["rv"]["op"]["k"] in ("move", "copy") and \
+                        "daggy::Dag<F," in (st["rv"]["op"]["pl"].get("ty", "")):
+                    bad.append("`graph` field overwritten at %s" % bx.loc(bb))
+        ctx.check(not bad, rule + "4", "graph-in-place|%s" % f["name"], m.where(b),
+                  "%s changes the builder's graph only in place: the graph is never moved out of or replaced in the builder" % f["name"],
+                  "%s moves the user's graph out of the builder / replaces it (%s): an early return in between loses every function and edge added so far" % (f["name"], bad[:3]))
+    if n4 < 3:
+        ctx.unverifiable(rule + "4", "floor", "-", "expected at least 3 `&mut self` builder methods, found %d" % n4)
     ctx.counts[rule] = n
     if len(singles) < 2:
         ctx.unverifiable(rule + "1", "floor", "-", "expected 2 single-edge builder methods, found %d" % len(singles))
